@@ -676,7 +676,10 @@ func (tx *Tx) prefixScanByHintBPTSparseIdx(bucket string, prefix []byte, offsetN
 	}
 
 	leftNum := limitNum - len(es)
-	if leftNum > 0 {
+	if limitNum <= 0 {
+		leftNum = limitNum // no limit: the sealed segments are scanned without a limit too
+	}
+	if leftNum > 0 || limitNum <= 0 {
 		entries, voff, err := tx.prefixScanOnDisk(bucket, prefix, offsetNum, leftNum)
 		if err != nil {
 			return nil, off, err
@@ -719,7 +722,10 @@ func (tx *Tx) prefixSearchScanByHintBPTSparseIdx(bucket string, prefix []byte, r
 	}
 
 	leftNum := limitNum - len(es)
-	if leftNum > 0 {
+	if limitNum <= 0 {
+		leftNum = limitNum // no limit: the sealed segments are scanned without a limit too
+	}
+	if leftNum > 0 || limitNum <= 0 {
 		entries, voff, err := tx.prefixSearchScanOnDisk(bucket, prefix, reg, offsetNum, leftNum)
 		if err != nil {
 			return nil, off, err
